@@ -307,11 +307,18 @@ func runScen(s scen) {
 			}
 		}
 		if setupOK {
+			// the Accept goroutine outlives a timed-out attempt: it must not touch the
+			// variables the next attempt reassigns (sm, st)
+			smA := sm
+			got := make(chan tubes.Tube, 1)
 			ok, _, _ := within(3*time.Second, func() error {
-				t, err := sm.Accept()
-				st = t
+				t, err := smA.Accept()
+				got <- t
 				return err
 			})
+			if ok {
+				st = <-got
+			}
 			setupOK = ok && st != nil
 			if cr != nil && setupOK {
 				cr.WaitForInit()
@@ -977,11 +984,15 @@ func runUnrelLocal(id int, variant string, oneP bool) (okRun bool) {
 	u, err := cm.CreateUnreliableTube(common.ExecTube)
 	var st tubes.Tube
 	if err == nil {
+		got := make(chan tubes.Tube, 1)
 		ok, _, _ := within(3*time.Second, func() error {
 			t, e := sm.Accept()
-			st = t
+			got <- t
 			return e
 		})
+		if ok {
+			st = <-got
+		}
 		if !ok || st == nil {
 			err = fmt.Errorf("accept")
 		}
